@@ -10,9 +10,10 @@ Writes /verif/seeded/<id>/{patch.diff,demo/,meta.json}.
 """
 import argparse, json, os, shutil, subprocess, sys, time
 
-W = "/tmp/sv_eval/repo"
-WORK = "/tmp/sv_eval/work"
-EVD = "/tmp/sv_eval/evidence"
+BASE = os.environ.get("SV_EVAL_DIR", "/tmp/sv_eval")   # a second directory lets a regression run next to an evaluation
+W = BASE + "/repo"
+WORK = BASE + "/work"
+EVD = BASE + "/evidence"
 VERIF = os.path.dirname(os.path.dirname(os.path.abspath(__file__)))
 
 
